@@ -1,4 +1,114 @@
-import FiddleModel.Model.Eq
+/-
+C06 — `==` on Buildables.
+
+Model: `Model/Eq.lean` (`valEq`: Python `==` over argument values with defaults filled in;
+`shareVisit`: the lockstep sharing walk of `_same_sharing_structure`; `buildableEq` = both).
+`buildableEq` is a total Boolean function, so "never raises" is part of the model's type; the
+correspondence check is what ties that to the code (an exception in the real `__eq__` is a
+correspondence failure). History is not an input of the model at all (`GObj` has no history
+field), which is the model's statement of "ignores assignment history"; the correspondence
+check compares configurations with different histories against it.
+
+Proved here: reflexivity on every well-formed heap (`Heap.EqWF`, decidable, checked by the
+driver on every request), and the "distinguishes" clauses — different callables, Buildable
+types, argument counts, and sharing structure each force `false`.
+Not proved (correspondence only): symmetry, transitivity and invariance under dict insertion
+order — `C06_partial`: their proofs need a counting argument over key sets that is not done.
+-/
+import FiddleModel.Lemmas.EqL
+
 namespace Fiddle
-theorem C06_placeholder : True := trivial
+
+/-- Reflexive: every Buildable equals itself (value comparison and sharing walk both succeed). -/
+theorem C06_reflexive (h : Heap) (wf : h.EqWF) (i : Nat) (o : GObj) (ho : h[i]? = some o) :
+    buildableEq h h (.ref i) (.ref i) = true :=
+  buildableEq_refl h wf i o ho
+
+/-- Different callables, node types or Buildable subclasses are never equal. -/
+theorem C06_distinguishes_callable_and_type (h1 h2 : Heap) (i j : Nat) (a b : GObj)
+    (ha : h1[i]? = some a) (hb : h2[j]? = some b)
+    (hne : a.kind ≠ b.kind ∨ a.ty ≠ b.ty ∨ a.bk ≠ b.bk) :
+    buildableEq h1 h2 (.ref i) (.ref j) = false := by
+  have : (a.kind != b.kind || a.ty != b.ty || a.bk != b.bk) = true := by
+    rcases hne with h | h | h <;> simp [h]
+  simp [buildableEq, valEq, ha, hb, this]
+
+/-- A Buildable is never equal to a non-Buildable leaf, nor a leaf to a different leaf. -/
+theorem C06_distinguishes_atoms (h1 h2 : Heap) (s t : String) (hne : s ≠ t) :
+    buildableEq h1 h2 (.atom s) (.atom t) = false := by
+  simp [buildableEq, valEq, hne]
+
+/-- Different numbers of (defaults-completed) arguments are never equal. -/
+theorem C06_distinguishes_argument_sets (h1 h2 : Heap) (i j : Nat) (a b : GObj)
+    (ha : h1[i]? = some a) (hb : h2[j]? = some b) (hk : a.kind = .cfg)
+    (hl : (childrenWithDefaults a).length ≠ (childrenWithDefaults b).length) :
+    buildableEq h1 h2 (.ref i) (.ref j) = false := by
+  by_cases hne : (a.kind != b.kind || a.ty != b.ty || a.bk != b.bk) = true
+  · simp [buildableEq, valEq, ha, hb, hne]
+  · simp [buildableEq, valEq, ha, hb, hne, hk, hl]
+
+/-- An argument a Buildable lacks on the other side (after defaults) makes them unequal. -/
+theorem C06_distinguishes_missing_argument (h1 h2 : Heap) (i j : Nat) (a b : GObj)
+    (ha : h1[i]? = some a) (hb : h2[j]? = some b) (hk : a.kind = .cfg)
+    (x : PElem × GVal) (hx : x ∈ childrenWithDefaults a)
+    (hmiss : lookupChild (childrenWithDefaults b) x.1 = none) :
+    buildableEq h1 h2 (.ref i) (.ref j) = false := by
+  by_cases hne : (a.kind != b.kind || a.ty != b.ty || a.bk != b.bk) = true
+  · simp [buildableEq, valEq, ha, hb, hne]
+  · have : ((childrenWithDefaults a).all (fun x =>
+        match lookupChild (childrenWithDefaults b) x.1 with
+        | some y => valEq h1 h2 (h1.length + h2.length + 1) x.2 y
+        | none => false)) = false := by
+      rw [List.all_eq_false]
+      exact ⟨x, hx, by simp [hmiss]⟩
+    have hval : valEq h1 h2 (h1.length + h2.length + 1 + 1) (.ref i) (.ref j) = false := by
+      simp only [valEq, ha, hb]
+      rw [if_neg hne]
+      simp only [hk]
+      rw [Bool.and_eq_false_iff]; right
+      rw [List.all_eq_false]
+      exact ⟨x, hx, by simp [hmiss]⟩
+    simp [buildableEq, hval]
+
+/-- Sharing structure: once object `i` of the left configuration has been matched with `j'`,
+    meeting it again opposite a different object `j` is a mismatch ... -/
+theorem C06_distinguishes_sharing_left (h1 h2 : Heap) (fuel i j j' : Nat) (st : ShareSt)
+    (hint : (isInternable h1 (h1.length + 1) (.ref i) ||
+      isInternable h2 (h2.length + 1) (.ref j)) = false)
+    (hm : assocGet st.xToY i = some j') (hne : j' ≠ j) :
+    shareVisit h1 h2 (fuel + 1) (.ref i) (.ref j) st = none := by
+  simp only [shareVisit, hint, hm]
+  cases assocGet st.yToX j <;> simp [hne]
+
+/-- ... and symmetrically for the right configuration: sharing on one side only is detected
+    in both directions. -/
+theorem C06_distinguishes_sharing_right (h1 h2 : Heap) (fuel i j i' : Nat) (st : ShareSt)
+    (hint : (isInternable h1 (h1.length + 1) (.ref i) ||
+      isInternable h2 (h2.length + 1) (.ref j)) = false)
+    (hm : assocGet st.yToX j = some i') (hne : i' ≠ i) :
+    shareVisit h1 h2 (fuel + 1) (.ref i) (.ref j) st = none := by
+  simp only [shareVisit, hint, hm]
+  cases assocGet st.xToY i <;> simp [hne]
+
+/-- A failed sharing walk makes `==` false whatever the values are. -/
+theorem C06_sharing_mismatch_is_unequal (h1 h2 : Heap) (r1 r2 : GVal)
+    (hs : shareVisit h1 h2 (h1.length + h2.length + 2) r1 r2 {} = none) :
+    buildableEq h1 h2 r1 r2 = false := by
+  simp [buildableEq, hs]
+
+/-! ## Non-vacuity -/
+
+private def two : Heap :=
+  [ { kind := .list, children := [] },
+    { kind := .cfg, ty := "f", bk := "Config", children := [(.attr "a", .ref 0), (.attr "b", .ref 0)] } ]
+private def twoSplit : Heap :=
+  [ { kind := .list, children := [] }, { kind := .list, children := [] },
+    { kind := .cfg, ty := "f", bk := "Config", children := [(.attr "a", .ref 0), (.attr "b", .ref 1)] } ]
+
+example : two.EqWF := Heap.eqWF_of_B two (by decide)
+/-- equal values, different sharing: not equal, in both directions -/
+example : buildableEq two twoSplit (.ref 1) (.ref 2) = false ∧
+    buildableEq twoSplit two (.ref 2) (.ref 1) = false ∧
+    buildableEq two two (.ref 1) (.ref 1) = true := by decide
+
 end Fiddle
